@@ -535,6 +535,29 @@ ADDENDA4 = {
 for _p, _t in ADDENDA4.items():
     CLAIMS[_p]['text'] = CLAIMS[_p]['text'].rstrip() + _t
 
+ADDENDA5 = {
+    'C01': ' Round 5: receive handler cycle (shared C02.R5).',
+    'C02': ' Round 5: deferred queue detached before replay (shared C11.R2); strict flag / rollover guard (shared C06.R2).',
+    'C04': ' Round 5: derived Options never share the source kwargs dict; known_hosts = user files + global files.',
+    'C05': ' Round 5: a superseded request task decides nothing; connection-layer messages refused before authentication (shared C06.R1 rows).',
+    'C06': ' Round 5: transport message classes 1-7 always evaluated.',
+    'C07': ' Round 5: one decoder per data type; a chunk read from a redirect source is never dropped.',
+    'C08': ' Round 5: water-mark table incl. low-water 0; communicate() resumes after lifting the limit.',
+    'C09': ' Round 5: communicate() resume (shared C08.R9); early data + EOF of a local forward (shared C20.R4).',
+    'C10': ' Round 5: SOCKS4 unterminated field bound; PKCS#12 KDF non-empty salt; run-time regex operands escaped.',
+    'C11': ' Round 5: gate re-evaluated after the inserted IGNORE; rollover guard (shared C06.R2).',
+    'C12': ' Round 5: seek table; FX_EOF on WRITE is a failure; read-to-end through the block reader.',
+    'C13': ' Round 5: destination setstat follow decision from the dispatched type; SCP sink never shortens its destination, E ends its level.',
+    'C14': ' Round 5: encodable error reasons; reply parser errors are SFTPBadMessage; FXP_INIT version lower bound.',
+    'C15': ' Round 5: certificate options in table order; one-line key comments verbatim.',
+    'C16': ' Round 5: signed authenticator fields verified as read.',
+    'C17': ' Round 5: build_pattern numeric for every address spelling; blob algorithm name equals what the parameters imply; lookups do not mutate the loaded file (shared C04.R6).',
+    'C18': ' Round 5: build_pattern witnesses (shared C17.R1).',
+    'C20': ' Round 5: late listeners refused, second EOF closes the pair, channel for a gone socket closed; _open_forward starts reading in a task; credential restrictions before the callback (shared C05.R5).',
+}
+for _p, _t in ADDENDA5.items():
+    CLAIMS[_p]['text'] = CLAIMS[_p]['text'].rstrip() + _t
+
 PENDING = 'check not built yet in this session (planned, see DESIGN.md section 5)'
 
 NOT_APPLICABLE = {
